@@ -108,7 +108,7 @@ def eager(A, prog):
 
 
 def row_ops(n, fam):
-    rows = [('all', slice(None)), ('int0', 0), ('intlast', n - 1), ('intneg', -1),
+    rows = [('all', slice(None)), ('int0', 0), ('intlast', n - 1), ('intneg', -1), ('npint', np.int64(1)),
             ('cross', slice(1, n - 1)), ('negslice', slice(-n + 1, None))]
     if fam != 'cbin':
         rows += [('list', [0, n - 1]), ('arr', np.array([1, n - 2]))]
@@ -129,7 +129,7 @@ def compare(lazy_reader, E, n, fam, with_cols, ulps=4):
         return arr_equal_ulp(a, b, ulps)
     checked = 0
     for rname, r in row_ops(n, fam):
-        rr = [r] if isinstance(r, int) else r
+        rr = [int(r)] if isinstance(r, (int, np.integer)) else r
         exp = E[rr]
         try:
             got = lazy_reader[r]
